@@ -41,7 +41,10 @@ ASSUMPTIONS = [
 RULE = ("boundary inputs in every dimensionality (cnTemp = 0 and 0.0; solution.T_eq = 3.8 and -2.0; VISF with the "
         "vacuum applied from 0.002 h so that the evaporating top is the coldest point at the trigger) plus 0D, 1D "
         "(shelf, VISF) programs from a calibrated table (<= 10 000 steps) with cnTemp in {-3,-5,-8,-12,0,0.0} C below the "
-        "start temperature, optional hold; non-trivial = run completed")
+        "start temperature, optional hold; long processes (> 10 000 steps, save stride 2-5) whose trigger step is not a "
+        "multiple of the stride, each paired with the same programme at <= 10 000 steps; VISF with cnTemp below the "
+        "programme's end temperature (cnTemp read back from the object); cnTemp edited in place on one object; "
+        "non-trivial = run completed")
 EXPLANATION = ("Lean theorems about the controlled-nucleation branch of the cooling loop + differential check against "
                "Snowing.run(); the trigger condition re-evaluated on the real recorded fields")
 PARALLEL = True
@@ -49,7 +52,13 @@ LEVEL_TEXT = ("Lean 4 theorems about executable models of _run_0D and _run_1D (e
 
 
 def run_impl(case):
-    return su.run_real_cached(case)
+    obs = su.run_real_cached(case)
+    if case.get("pair_t_tot") is not None and not obs.get("raise"):
+        # the SAME programme with a shorter final hold (<= 10 000 steps: every step recorded)
+        short = {k: v for k, v in case.items() if k != "pair_t_tot"}
+        short["t_tot"] = case["pair_t_tot"]
+        obs["pair"] = su.run_real_cached(short)
+    return obs
 
 
 def _run_model_one(drv, case):
@@ -126,11 +135,33 @@ def _min_by_step(case, impl, run):
     return a.reshape(a.shape[0], -1).min(axis=1), i_end
 
 
+def _predicates_pair(case, impl, out):
+    """the trigger step must not depend on the process length (the total time only prolongs the final hold)"""
+    pair = impl.get("pair")
+    run = impl["runs"][0]
+    if not pair or pair.get("raise") or run.get("raise") or pair["runs"][0].get("raise"):
+        return
+    site = f"_run_{case['dim']}"
+    a, b = run["snap"]["results"], pair["runs"][0]["snap"]["results"]
+    key = "T_nuc" if case["dim"] == "0D" else "T_nuc_min"
+    if not (close(a["t_nuc"], b["t_nuc"]) and close(a[key], b[key])):
+        out.append(Failure(clause="cn_trigger_first", key=f"cn_trigger_first|{site}|depends-on-process-length",
+                           detail=f"t_tot = {case['t_tot']} s (save stride > 1): t_nuc {a['t_nuc'] * 60} s, {key} {a[key]}; "
+                                  f"same programme with t_tot = {case['pair_t_tot']} s (every step recorded): t_nuc "
+                                  f"{b['t_nuc'] * 60} s, {key} {b[key]} - the first step at which the coldest point is <= "
+                                  f"cnTemp = {case['cnTemp']} does not depend on the final hold"))
+
+
 def _predicates_one(case, impl):
     out = []
     if impl.get("raise") or not impl.get("runs"):
         return out
     run = impl["runs"][0]
+    rb = run.get("cnTemp_readback", "absent")
+    if rb != "absent" and case.get("cnTemp") is not None and not (isinstance(rb, float) and rb == float(case["cnTemp"])):
+        out.append(Failure(clause="cn_trigger_first", key=f"cnTemp_readback|_run_{case['dim']}|",
+                           detail=f"requested cnTemp = {case['cnTemp']} C but S.opcond.cnTemp reads back {rb}"))
+    _predicates_pair(case, impl, out)
     cn = case.get("cnTemp")
     if run.get("raise") or cn is None:
         return out
@@ -337,7 +368,46 @@ def cases_edit_in_place():
     return [a, b, c]
 
 
+def cases_long_process(tier):
+    """controlled nucleation in processes with more than 10 000 steps (save stride 2 - 5); cnTemp is chosen - by
+    means of the model - so that the first step with coldest point <= cnTemp is NOT a multiple of the stride; each
+    is paired with the same programme at <= 10 000 steps (the trigger must not depend on the final hold)"""
+    h, k, rate = 0.03, 400, 0.5
+    dt = su.dt_1d_default(h)
+    specs = [(12000, 2), (24000, 3)] if tier == "quick" else [(12000, 2), (24000, 3), (40000, 5), (33000, 4)]
+    try:
+        drv = core.Driver()
+        base = dict(dim="1D", config="shelf", height=h, k_s0=k, start=20, stop=-40, rate=rate, holds=None, Frand=None)
+        rec = su.record_inputs(dict(base, t_tot=8000 * dt, cnTemp=-3.2))
+        steps = {}
+        for cn in (-3.2, -4.1, -5.3, -6.2, -7.4, -2.6, -8.1):
+            m = su.decode_model(drv.call(su.model_request(dict(base, t_tot=8000 * dt, cnTemp=cn), rec, Frand=0.5,
+                                                          old=False, row_stride=10 ** 9)))
+            if not m["raise"]:
+                steps[cn] = m["NtCoolEnd"]
+        drv.close()
+        for n, stride in specs:
+            cn = next((c for c, st in steps.items() if st % stride != 0), None)
+            if cn is None:
+                continue
+            yield dict(base, t_tot=n * dt, cnTemp=cn, pair_t_tot=8000 * dt, kind=f"long-process:stride={stride}")
+    except Exception:
+        return
+
+
+def cases_cn_below_end():
+    """VISF: evaporation makes the product colder than the shelf, so a trigger temperature BELOW the programme's end
+    temperature is a legitimate request (1D, 1.5 cm, 10 Pa from 6 to 12 min, shelf ends at -25 C, cnTemp -30 C)"""
+    return [dict(dim="1D", config="VISF", height=0.015, diameter=0.015, k_s0=400, t_tot=1500, start=20, stop=-25.0,
+                 rate=0.5, holds=None, cnTemp=-30.0, Frand=None, kind="cnTemp-below-end",
+                 yaml={"VISF": {"t_vac_start": 0.1, "t_vac_duration": 0.1, "p_vac": 10}})]
+
+
 def cases(rng, tier):
+    for c in cases_long_process(tier):
+        yield c
+    for c in cases_cn_below_end():
+        yield c
     for c in cases_edit_in_place():
         yield c
     n0, n1, nv, n2 = (20, 8, 2, 0) if tier == "quick" else (300, 100, 16, 8)
